@@ -2797,7 +2797,22 @@ func NewValArg(in []byte) *SQLVal {
 func (node *SQLVal) Format(buf *TrackedBuffer) {
 	switch node.Type {
 	case StrVal:
-		sqltypes.MakeTrusted(sqltypes.VarBinary, node.Val).EncodeSQL(buf)
+		// Escape exactly what Tokenizer.scanString decodes (\', \\ and \n): every other
+		// backslash sequence is kept verbatim by the tokenizer, so escaping more would not round-trip.
+		buf.WriteByte('\'')
+		for _, ch := range node.Val {
+			switch ch {
+			case '\'':
+				buf.WriteString("\\'")
+			case '\\':
+				buf.WriteString("\\\\")
+			case '\n':
+				buf.WriteString("\\n")
+			default:
+				buf.WriteByte(ch)
+			}
+		}
+		buf.WriteByte('\'')
 	case IntVal, FloatVal, HexNum:
 		buf.Myprintf("%s", []byte(node.Val))
 	case HexVal:
